@@ -1,9 +1,252 @@
 package main
 
-// Self-test by seeded variants (thorough tier); see selftest_variants.go.
+import (
+	"encoding/json"
+	"fmt"
+	"os"
+	"os/exec"
+	"path/filepath"
+	"sort"
+	"strings"
+	"sync"
+)
 
-func runSelfTests(prop string, rules []*Rule) map[string]interface{} {
-	return map[string]interface{}{"status": "not built yet"}
+// Self-test by seeded variants (thorough tier). Every variant is a one-spot source edit applied through the
+// go/packages overlay (nothing is written to /repo); the rules of the property are re-run on the variant in a child
+// process and the set of violated obligations is compared with the unmodified tree's. Breaking variants must add a
+// violation; benign (behaviour-preserving) variants must add none and must not make a rule undecided.
+// A variant whose `old` text no longer occurs exactly once in the file is reported `inapplicable`.
+// Self-test results are recorded in the evidence and never change the exit code.
+
+type variant struct {
+	ID     string   `json:"id"`
+	Props  []string `json:"props"`
+	File   string   `json:"file"` // relative to the repository root
+	Old    string   `json:"old"`
+	New    string   `json:"new"`
+	Expect string   `json:"expect"` // "fire" | "silent"
+	Rule   string   `json:"rule,omitempty"`
+	Why    string   `json:"why"`
 }
 
-func runVariantChild(spec string) int { return 2 }
+type childSpec struct {
+	Prop    string  `json:"prop"`
+	Variant variant `json:"variant"`
+	Repo    string  `json:"repo"`
+	Verif   string  `json:"verif"`
+}
+
+type childResult struct {
+	Applicable bool     `json:"applicable"`
+	Violated   []string `json:"violated"` // rule|key
+	Undecided  []string `json:"undecided"`
+	Errors     []string `json:"errors"`
+}
+
+func variantsFor(prop string) []variant {
+	var out []variant
+	for _, v := range allVariants {
+		for _, p := range v.Props {
+			if p == prop {
+				out = append(out, v)
+			}
+		}
+	}
+	return out
+}
+
+func applyVariant(v variant) (string, []byte, bool) {
+	path := filepath.Join(repoRoot, v.File)
+	b, err := os.ReadFile(path)
+	if err != nil {
+		return path, nil, false
+	}
+	if v.ID == "baseline" {
+		return path, b, true
+	}
+	s := string(b)
+	if strings.Count(s, v.Old) != 1 {
+		return path, nil, false
+	}
+	return path, []byte(strings.Replace(s, v.Old, v.New, 1)), true
+}
+
+// runVariantChild is the child process: load with overlay, run the property's rules, print violated keys.
+func runVariantChild(spec string) int {
+	var cs childSpec
+	if err := json.Unmarshal([]byte(spec), &cs); err != nil {
+		fmt.Fprintln(os.Stderr, err)
+		return 2
+	}
+	repoRoot, verifRoot = cs.Repo, cs.Verif
+	res := childResult{}
+	path, content, ok := applyVariant(cs.Variant)
+	if !ok {
+		out, _ := json.Marshal(res)
+		fmt.Println(string(out))
+		return 0
+	}
+	res.Applicable = true
+	overlay := map[string][]byte{path: content}
+	rules := rulesFor(cs.Prop)
+	wantMain, wantAd := needs(rules)
+	var P *Program
+	var adapters []*Program
+	var err error
+	if wantMain {
+		P, err = LoadProgram(repoRoot, true, overlay)
+		if err != nil {
+			res.Errors = append(res.Errors, err.Error())
+		} else if P.TypeErrors > 0 {
+			res.Errors = append(res.Errors, fmt.Sprintf("variant does not type-check (%d errors)", P.TypeErrors))
+		}
+	}
+	if wantAd && len(res.Errors) == 0 {
+		adapters, err = LoadAdaptersOverlay(repoRoot, overlay)
+		if err != nil {
+			res.Errors = append(res.Errors, err.Error())
+		}
+	}
+	if len(res.Errors) == 0 {
+		obls, _, regress, crashes := runRules(rules, P, adapters, "quick")
+		for _, o := range obls {
+			switch o.Verdict {
+			case Violated:
+				res.Violated = append(res.Violated, o.Rule+"|"+o.Key)
+			case Undecided:
+				res.Undecided = append(res.Undecided, o.Rule+"|"+o.Key)
+			}
+		}
+		res.Errors = append(res.Errors, regress...)
+		for _, c := range crashes {
+			res.Errors = append(res.Errors, strings.SplitN(c, "\n", 2)[0])
+		}
+	}
+	out, _ := json.Marshal(res)
+	fmt.Println(string(out))
+	return 0
+}
+
+// selfTestImpl runs in the parent (thorough tier).
+func runSelfTests(prop string, rules []*Rule) map[string]interface{} {
+	vs := variantsFor(prop)
+	summary := map[string]interface{}{}
+	if len(vs) == 0 {
+		summary["variants"] = 0
+		return summary
+	}
+	// baseline violated set of the unmodified tree: run a child without modification (empty variant = inapplicable),
+	// so take it from a dedicated baseline child that applies a no-op overlay
+	self, err := os.Executable()
+	if err != nil {
+		summary["error"] = err.Error()
+		return summary
+	}
+	run := func(v variant) (childResult, error) {
+		spec, _ := json.Marshal(childSpec{Prop: prop, Variant: v, Repo: repoRoot, Verif: verifRoot})
+		cmd := exec.Command(self, "-selftest-variant", string(spec))
+		cmd.Env = goEnv()
+		out, err := cmd.Output()
+		var r childResult
+		if err != nil {
+			return r, fmt.Errorf("child failed: %v", err)
+		}
+		lines := strings.Split(strings.TrimSpace(string(out)), "\n")
+		if e := json.Unmarshal([]byte(lines[len(lines)-1]), &r); e != nil {
+			return r, e
+		}
+		return r, nil
+	}
+	base, err := run(variant{ID: "baseline", File: vs[0].File, Old: "package ", New: "package "})
+	baseSet := map[string]bool{}
+	if err == nil {
+		// "package " occurs once at least; if not exactly once the baseline is inapplicable: fall back to empty set
+		for _, k := range base.Violated {
+			baseSet[k] = true
+		}
+	}
+	type outcome struct {
+		ID       string   `json:"id"`
+		Expect   string   `json:"expect"`
+		Result   string   `json:"result"` // detected | missed | silent | false-alarm | inapplicable | error
+		NewViol  []string `json:"new_violations,omitempty"`
+		Why      string   `json:"why"`
+		WantRule string   `json:"want_rule,omitempty"`
+	}
+	outs := make([]outcome, len(vs))
+	sem := make(chan struct{}, 4)
+	var wg sync.WaitGroup
+	for i, v := range vs {
+		wg.Add(1)
+		go func(i int, v variant) {
+			defer wg.Done()
+			sem <- struct{}{}
+			defer func() { <-sem }()
+			o := outcome{ID: v.ID, Expect: v.Expect, Why: v.Why, WantRule: v.Rule}
+			r, err := run(v)
+			switch {
+			case err != nil:
+				o.Result = "error: " + err.Error()
+			case !r.Applicable:
+				o.Result = "inapplicable"
+			case len(r.Errors) > 0:
+				o.Result = "error: " + strings.Join(r.Errors, "; ")
+			default:
+				for _, k := range r.Violated {
+					if !baseSet[k] {
+						o.NewViol = append(o.NewViol, k)
+					}
+				}
+				sort.Strings(o.NewViol)
+				if v.Expect == "fire" {
+					o.Result = "missed"
+					for _, k := range o.NewViol {
+						if v.Rule == "" || strings.HasPrefix(k, v.Rule+"|") {
+							o.Result = "detected"
+						}
+					}
+				} else {
+					o.Result = "silent"
+					if len(o.NewViol) > 0 || len(r.Undecided) > 0 {
+						o.Result = "false-alarm"
+						o.NewViol = append(o.NewViol, r.Undecided...)
+					}
+				}
+			}
+			outs[i] = o
+		}(i, v)
+	}
+	wg.Wait()
+	nb, db, ns, ss, inap, errs := 0, 0, 0, 0, 0, 0
+	for _, o := range outs {
+		switch {
+		case o.Result == "inapplicable":
+			inap++
+		case strings.HasPrefix(o.Result, "error"):
+			errs++
+		case o.Expect == "fire":
+			nb++
+			if o.Result == "detected" {
+				db++
+			}
+		default:
+			ns++
+			if o.Result == "silent" {
+				ss++
+			}
+		}
+	}
+	summary["variants"] = len(vs)
+	summary["breaking"] = fmt.Sprintf("%d/%d detected", db, nb)
+	summary["benign"] = fmt.Sprintf("%d/%d silent", ss, ns)
+	summary["inapplicable"] = inap
+	summary["errors"] = errs
+	summary["outcomes"] = outs
+	fmt.Printf("selftest %s: breaking %d/%d detected, benign %d/%d silent, inapplicable %d, errors %d\n", prop, db, nb, ss, ns, inap, errs)
+	for _, o := range outs {
+		if o.Result == "missed" || o.Result == "false-alarm" || strings.HasPrefix(o.Result, "error") || o.Result == "inapplicable" {
+			fmt.Printf("  selftest %-12s %s (%s) %v\n", o.Result, o.ID, o.Why, o.NewViol)
+		}
+	}
+	return summary
+}
